@@ -7,6 +7,7 @@ CONSTANTS
   H0 = 2
   HMax = 5
   MaxDev = 1
+  Deep = FALSE
   PopFirst = FALSE
   KeepDecode = FALSE
 CONSTRAINT Bound
